@@ -861,3 +861,123 @@ Proof.
   intros kind fs os f Hf Ht Hd Hsucc fuel cur endo.
   apply (bgfetch_local kind fs os f Hf Ht Hsucc). left. unfold quiescent. apply direct_pending; [exact Hd|reflexivity].
 Qed.
+
+(* ------------------------------------------------------------------------------------------ *)
+(* fs.Check on the waiter *)
+
+Definition fresh (w : wst) (id : nat) : Prop := ~ In id (waiting w) /\ forall b, ~ In (id, b) (returned w).
+
+Lemma wait_enter_fresh : forall w id, fresh w id ->
+  wstep w (WaitEnter id) =
+    if closed w
+    then mkW (closed w) (closes w) (pf w) (pf_bodies w) (pf_early w) (bg w) (bg_bodies w) (waiting w) ((id, false) :: returned w)
+    else mkW (closed w) (closes w) (pf w) (pf_bodies w) (pf_early w) (bg w) (bg_bodies w) (id :: waiting w) (returned w).
+Proof.
+  intros w id [Hw Hr]. cbn [wstep].
+  assert (E1 : memN id (waiting w) = false).
+  { destruct (memN id (waiting w)) eqn:E; [apply memN_In in E; contradiction|reflexivity]. }
+  assert (E2 : existsb (fun r => Nat.eqb id (fst r)) (returned w) = false).
+  { destruct (existsb (fun r => Nat.eqb id (fst r)) (returned w)) eqn:E; [|reflexivity].
+    apply existsb_exists in E. destruct E as [[i b] [Hi He]]. cbn in He. apply Nat.eqb_eq in He. subst i. exfalso. exact (Hr b Hi). }
+  rewrite E1, E2. reflexivity.
+Qed.
+
+(* Check answers nil exactly when the layer is registered and reachable: the outcome of the prefetch never matters *)
+Lemma fs_check_result : forall registered conn_ok noprefetch w id,
+  snd (fst (fs_check registered conn_ok noprefetch w id)) = ROk <-> (registered = true /\ conn_ok = true).
+Proof.
+  intros registered conn_ok noprefetch w id. unfold fs_check.
+  destruct registered, conn_ok, noprefetch; cbn [negb fst snd];
+    try destruct (memN id (waiting (wstep w (WaitEnter id)))); cbn [fst snd];
+    split; try (intro; split; reflexivity); try reflexivity; try discriminate; try (intros [A B]; discriminate).
+Qed.
+
+(* a Check that is not registered / not reachable / with prefetch disabled never touches the waiter *)
+Lemma fs_check_skips : forall registered conn_ok noprefetch w id,
+  registered = false \/ conn_ok = false \/ noprefetch = true ->
+  fst (fst (fs_check registered conn_ok noprefetch w id)) = w /\ snd (fs_check registered conn_ok noprefetch w id) = false.
+Proof.
+  intros registered conn_ok noprefetch w id H. unfold fs_check.
+  destruct registered, conn_ok, noprefetch; cbn; try (split; reflexivity); destruct H as [H|[H|H]]; discriminate.
+Qed.
+
+(* a healthy Check with a fresh call id: it has returned (it is not parked), it waited exactly when the waiter was open,
+   and afterwards the waiter is closed in either case *)
+Lemma fs_check_healthy : forall w id, fresh w id ->
+  let x := fs_check true true false w id in
+  ~ In id (waiting (fst (fst x))) /\ closed (fst (fst x)) = true /\ snd x = negb (closed w)
+  /\ (snd x = true -> In (id, true) (returned (fst (fst x)))).
+Proof.
+  intros w id Hf x. subst x. unfold fs_check. cbn [negb].
+  rewrite (wait_enter_fresh w id Hf). destruct Hf as [Hw Hr]. destruct (closed w) eqn:Ec.
+  - cbn [waiting].
+    assert (E1 : memN id (waiting w) = false).
+    { destruct (memN id (waiting w)) eqn:E; [apply memN_In in E; contradiction|reflexivity]. }
+    rewrite E1. cbn. repeat split; try assumption; try reflexivity. discriminate.
+  - cbn [waiting]. replace (memN id (id :: waiting w)) with true by (symmetry; apply memN_In; left; reflexivity).
+    cbn [fst snd negb].
+    set (w1 := mkW false (closes w) (pf w) (pf_bodies w) (pf_early w) (bg w) (bg_bodies w) (id :: waiting w) (returned w)).
+    destruct (wait_timeout_returns w1 id (or_introl eq_refl)) as [A [B C]].
+    repeat split; try assumption. intros _. exact A.
+Qed.
+
+(* "the FIRST availability check waits": once a healthy Check has returned, no Check ever waits again, whatever happens in between *)
+Lemma only_first_check_waits : forall w id, fresh w id ->
+  forall os' registered conn_ok noprefetch id',
+    fresh (wexec (fst (fst (fs_check true true false w id))) os') id' ->
+    snd (fs_check registered conn_ok noprefetch (wexec (fst (fst (fs_check true true false w id))) os') id') = false.
+Proof.
+  intros w id Hf os' registered conn_ok noprefetch id' Hf'.
+  destruct (fs_check_healthy w id Hf) as [_ [Hc _]].
+  set (w2 := wexec (fst (fst (fs_check true true false w id))) os') in *.
+  assert (Hc2 : closed w2 = true) by (apply wexec_closed_mono; exact Hc).
+  destruct registered; [|exact (proj2 (fs_check_skips false conn_ok noprefetch w2 id' (or_introl eq_refl)))].
+  destruct conn_ok; [|exact (proj2 (fs_check_skips true false noprefetch w2 id' (or_intror (or_introl eq_refl))))].
+  destruct noprefetch; [exact (proj2 (fs_check_skips true true true w2 id' (or_intror (or_intror eq_refl))))|].
+  destruct (fs_check_healthy w2 id' Hf') as [_ [_ [H _]]]. rewrite H, Hc2. reflexivity.
+Qed.
+
+(* a wait that timed out has closed the waiter *)
+Lemma wstep_returned_true : forall s o id,
+  In (id, true) (returned (wstep s o)) -> In (id, true) (returned s) \/ closed (wstep s o) = true.
+Proof.
+  intros s o id H. destruct (wdone_fields s) as [F1 [F2 [F3 [F4 [F5 [F6 F7]]]]]].
+  destruct o as [| |ok| |ok|i|i|i]; cbn [wstep] in *.
+  - destruct (pf s); cbn in H; left; exact H.
+  - destruct (pf s); cbn in H; try (left; exact H). rewrite F7 in H. left. exact H.
+  - destruct (pf s); cbn in H; try (left; exact H). rewrite F7 in H. left. exact H.
+  - destruct (bg s); cbn in H; left; exact H.
+  - destruct (bg s); cbn in H; left; exact H.
+  - destruct (memN i (waiting s) || existsb (fun r => Nat.eqb i (fst r)) (returned s)); [left; exact H|].
+    destruct (closed s); cbn in H; [destruct H as [H|H]; [discriminate|left; exact H]|left; exact H].
+  - destruct (memN i (waiting s) && closed s); [|left; exact H].
+    cbn in H. destruct H as [H|H]; [discriminate|left; exact H].
+  - destruct (memN i (waiting s)); [|left; exact H]. right. cbn. apply wdone_closed.
+Qed.
+
+Lemma reach_timed_out_closed : forall os, timed_out (wexec winit os) -> closed (wexec winit os) = true.
+Proof.
+  intro os. unfold wexec.
+  assert (G : forall s, (timed_out s -> closed s = true) -> timed_out (fold_left wstep os s) -> closed (fold_left wstep os s) = true).
+  { induction os as [|o t IH]; intros s Hs; [exact Hs|]. cbn [fold_left]. apply IH.
+    intros [i Hi]. destruct (wstep_returned_true s o i Hi) as [Hold|Hc]; [|exact Hc].
+    apply wstep_closed_mono. apply Hs. exists i. exact Hold. }
+  apply G. intros [i Hi]. destruct Hi.
+Qed.
+
+(* while the prefetch spawned by Mount is pending (body not over, no async release, no earlier timeout) a healthy Check
+   waits; it does not wait once the body has returned (ok or failed) or taken the async branch or after a timeout *)
+Lemma check_waits_iff_prefetch_pending : forall os id, let w := wexec winit os in fresh w id ->
+  (snd (fs_check true true false w id) = true <-> closed w = false)
+  /\ (pf w = Finished \/ pf_early w = true \/ timed_out w -> snd (fs_check true true false w id) = false)
+  /\ (pf w <> Finished -> pf_early w = false -> ~ timed_out w -> snd (fs_check true true false w id) = true).
+Proof.
+  intros os id w Hf. destruct (fs_check_healthy w id Hf) as [_ [_ [H _]]].
+  destruct (reach_winv os) as [_ _ _ H4 H5 H6 _ _]. fold w in H4, H5, H6.
+  split; [rewrite H; destruct (closed w); split; intro X; try reflexivity; try discriminate|].
+  split.
+  - pose proof (reach_timed_out_closed os) as H9. fold w in H9.
+    intros [Hfin|[He|Ht]]; rewrite H; [rewrite (H4 Hfin)|rewrite (H5 He)|rewrite (H9 Ht)]; reflexivity.
+  - intros A B C. rewrite H. destruct (closed w) eqn:Ec; [|reflexivity].
+    destruct (H6 eq_refl) as [X|[X|X]]; [contradiction|rewrite X in B; discriminate|contradiction].
+Qed.
